@@ -78,7 +78,17 @@ def real(case):
     b = g1.mk_bpseq(seq, pairs)
     # derivations / queries made on the object BEFORE its notations are asked for (they must not change what it encodes)
     for name in (case[5] if len(case) > 5 else ()):
-        call(lambda: getattr(b, name)() if name.startswith("without_") else getattr(b, name))
+        if name == "all_dot_brackets":
+            if want_all:
+                call(lambda: list(b.all_dot_brackets))
+        elif name == "paired":
+            call(lambda: list(b.paired()))
+        elif name == "paired-5to3":
+            call(lambda: list(b.paired(only5to3=True)))
+        elif name == "paired-5to3-first":
+            call(lambda: any(b.paired(only5to3=True)))
+        else:
+            call(lambda: getattr(b, name)() if name.startswith("without_") else getattr(b, name))
     out = {}
     out["text"] = call(str, b)
     out["regions"] = call(lambda: ";".join("%d:%d:%d" % r for r in b._BpSeq__regions))
@@ -188,8 +198,9 @@ def run(ctx):
         else:
             levels = [ctx.rng.randrange(0, 33) for _ in range(nst)]
         pre = ()
-        if tag in ("planted", "dense", "tight", "hand") and ctx.rng.random() < 0.2:
-            pre = tuple(ctx.rng.sample(["without_isolated", "without_pseudoknots", "elements", "pairs"], ctx.rng.randint(1, 2)))
+        if tag in ("planted", "dense", "tight", "hand") and ctx.rng.random() < 0.3:
+            pre = tuple(ctx.rng.sample(["without_isolated", "without_pseudoknots", "elements", "pairs", "all_dot_brackets", "paired",
+                                        "paired-5to3", "paired-5to3-first"], ctx.rng.randint(1, 2)))
         cases.append((seq, pairs, components_ok(pairs, limit), want_opt, levels, pre))
     outs = parallel_map(real, cases)
     history_probe(ctx, res, real, cases, "encoders")
